@@ -399,6 +399,10 @@ func (w *World) newProvider() (*provider.Provider, error) {
 					switch w.ba {
 					case "BaApprove":
 						return nil
+					case "BaNarrow":
+						// the user approved less than was asked for: the grant is fixed at this moment
+						s.GrantScopes("openid")
+						return nil
 					case "BaPending":
 						return goidc.NewError(goidc.ErrorCodeAuthPending, "pending")
 					case "BaSlowDown":
